@@ -1,4 +1,6 @@
 import Lemmas.PermEquiv
+import Lemmas.HelpPerm
+import Lemmas.PermEquivComp
 import Props.C11
 import Props.C08
 /-!
@@ -105,6 +107,39 @@ theorem parseUser_perm (P : Prog) (N' : List Node) (args : List Str) (h : NPerm 
       simp only
       cases hpol : unknownPolicy s.unk [] with
       | mk e w => cases e <;> exact ⟨rfl, rfl, rfl, rfl⟩
+
+/-- **The help text is independent of the iteration order**: over the node list with every option
+table and command table permuted, `Help()` / the help option / the help command render the same
+bytes for every level and every choice of sections.  (The listed sub-commands have distinct names —
+a command's name is its key in the parent's table.) -/
+theorem help_text_order_independent (P : Prog) (N' : List Node) (h : NPerm P N')
+    (hlen : N'.length = P.nodes.length) (n : Nat) (hd : CmdNamesDistinct P n) (secs : List Section) :
+    helpOutput ext { P with nodes := N' } n secs = helpOutput ext P n secs :=
+  helpOutput_w ext P N' h hlen n hd secs
+
+example : CmdNamesDistinct Demo.prog 0 := by unfold CmdNamesDistinct; decide
+
+/-- **The completion list is independent of the iteration order**: the whole `COMP_LINE` branch of
+`Parse` — walking the earlier words, then producing the candidates for the last one, including the
+single-candidate hint that reads the option met last — gives the same list (or the same error) over
+permuted tables.  Hypothesis: no option key contains `=` (such a key could never be typed). -/
+theorem completion_order_independent (P : Prog) (N' : List Node) (zsh : Bool) (compLine : Str)
+    (args : List Str) (h : NPerm P N') (hk : AllKeysNoEq P) :
+    completeUser ext { P with nodes := N' } zsh compLine args = completeUser ext P zsh compLine args :=
+  completeUser_perm ext P N' zsh compLine args h hk
+
+example : AllKeysNoEq Demo.prog := by
+  intro i
+  by_cases hi : i < 4
+  · match i, hi with
+    | 0, _ => unfold KeysNoEq; decide
+    | 1, _ => unfold KeysNoEq; decide
+    | 2, _ => unfold KeysNoEq; decide
+    | 3, _ => unfold KeysNoEq; decide
+  · have h1 : Demo.prog.node i = dummyNode := by
+      have hlen : Demo.prog.nodes.length = 4 := by decide
+      simp [Prog.node, List.getD, List.getElem?_eq_none (by rw [hlen]; exact Nat.le_of_not_lt hi)]
+    rw [h1]; intro kv hkv; simp [dummyNode] at hkv
 
 /-- the hypothesis is met by reversing both tables of the root of the demo program -/
 example : NPerm Demo.prog
